@@ -99,7 +99,7 @@ _COPYRIGHT_PATTERNS = [
     ),
 ]
 
-_LICENSEREF_PATTERN = re.compile("LicenseRef-[a-zA-Z0-9-.]+$")
+_LICENSEREF_PATTERN = re.compile(r"LicenseRef-[a-zA-Z0-9-.]+\Z")
 
 # Amount of bytes that we assume will be big enough to contain the entire
 # comment header (including SPDX tags), so that we don't need to read the
